@@ -15,6 +15,7 @@ mod batch;
 mod robust;
 mod mapmatch;
 mod interp;
+mod powertrain;
 
 fn main() {
     // panics of the code under test are recorded as events by util::guarded; keep stderr quiet
@@ -41,6 +42,7 @@ fn main() {
         "robust" => robust::main(rest),
         "match" => mapmatch::main(rest),
         "interp" => interp::main(rest),
+        "powertrain" => powertrain::main(rest),
         "robust-child" => robust::child(&rest[0]),
         other => {
             eprintln!("unknown subcommand {}", other);
